@@ -262,6 +262,9 @@ func clip(s string, n int) string {
 // ---------------------------------------------------------------- engine glue
 
 func (e Engine) Run(t *core.Tape, opt core.RunOpt, agg *core.Agg) *core.Violation {
+	if opt.Leg == "pipeline" {
+		return e.runPipe(t, agg)
+	}
 	c := Generate(t, opt, agg)
 	return e.finish(c, agg)
 }
@@ -281,6 +284,16 @@ func (e Engine) finish(c *Case, agg *core.Agg) *core.Violation {
 }
 
 func (e Engine) ReplayCase(raw json.RawMessage, opt core.RunOpt, agg *core.Agg) (*core.Violation, error) {
+	var wrap struct {
+		Pipeline *PipeCase `json:"pipeline"`
+	}
+	if json.Unmarshal(raw, &wrap) == nil && wrap.Pipeline != nil {
+		f, h, err := executePipe(wrap.Pipeline, core.ReplayTape(wrap.Pipeline.Tape), agg)
+		if err != nil {
+			return nil, err
+		}
+		return e.finishPipe(wrap.Pipeline, f, h, nil, agg), nil
+	}
 	var c Case
 	if err := json.Unmarshal(raw, &c); err != nil {
 		return nil, err
